@@ -1024,4 +1024,73 @@ Section Oracle.
       cbn [l1_tr l1_exp l1_cur sum_fill]. repeat split; try assumption; try reflexivity; lia.
   Qed.
 
+
+  (* ---- whole call histories of an LZMAWriter ------------------------------------------------ *)
+  (* what the calls return and how many bytes have been accepted, as a function of the history,
+     the declared size and nothing else *)
+  Fixpoint l1_results (exp : option Z) (cur : Z) (ops : list wop) : list opres * Z * bool :=
+    match ops with
+    | [] => ([], cur, false)
+    | OpWrite n :: r =>
+        if (match exp with Some ex => ex <? cur + n | None => false end)
+        then let '(rs, c, f) := l1_results exp cur r in (RErr E_INVALID_INPUT :: rs, c, f)
+        else let '(rs, c, f) := l1_results exp (cur + n) r in (RWrote n :: rs, c, f)
+    | OpFlush :: r => let '(rs, c, f) := l1_results exp cur r in (RDone :: rs, c, f)
+    | OpFinish :: _ =>
+        if (match exp with Some ex => negb (ex =? cur) | None => false end)
+        then ([RErr E_INVALID_INPUT], cur, false) else ([RDone], cur, true)
+    end.
+
+  Fixpoint ops_total (ops : list wop) : Z :=
+    match ops with [] => 0 | OpWrite n :: r => n + ops_total r | _ :: r => ops_total r end.
+  (* every slice handed to write() is shorter than 2 GiB *)
+  Fixpoint ops_ok (ops : list wop) : Prop :=
+    match ops with [] => True | OpWrite n :: r => 0 <= n <= I32_MAX /\ ops_ok r | _ :: r => ops_ok r end.
+
+  Lemma ops_total_nonneg ops : ops_ok ops -> 0 <= ops_total ops.
+  Proof. induction ops as [|[n| |] r IH]; cbn; intros H; try lia; try (apply IH; exact H). destruct H. specialize (IH H0). lia. Qed.
+
+  Lemma l1_run_spec p org exp : wf_p p -> forall ops s acc,
+    l1ok s p org -> l1_exp _ s = exp -> ops_ok ops ->
+    sum_fill (l1_tr _ s) - org + ops_total ops <= U32_MAX ->
+    okor (l1_run PS parse s ops acc) (fun r =>
+      let '(s1, res) := r in
+      let '(rs, c, fin) := l1_results exp (l1_cur _ s) ops in
+      res = rev acc ++ rs /\ sum_fill (l1_tr _ s1) = c /\
+      (fin = true -> sum_sym (l1_tr _ s1) = c /\ sum_abs (l1_tr _ s1) = 0)).
+  Proof.
+    intros W. induction ops as [|op r IH]; intros s acc L Hexp Hok Hcap.
+    - cbn [l1_run l1_results okor]. rewrite frev_rev, app_nil_r. split; [reflexivity|]. split; [symmetry; apply (lo_cur _ _ _ L)|discriminate].
+    - destruct op as [n| |]; cbn [l1_run l1_results ops_total ops_ok] in *.
+      + destruct Hok as [Hn Hok]. pose proof (ops_total_nonneg _ Hok).
+        eapply okor_bind; [apply (l1_write_spec p org s n W L Hn); lia|].
+        intros [s1 res]. rewrite Hexp. cbn [fst snd].
+        destruct (match exp with Some ex => ex <? l1_cur PS s + n | None => false end).
+        * intros [E1 E2]. subst s1 res.
+          eapply okor_weaken; [apply (IH s (RErr E_INVALID_INPUT :: acc) L Hexp Hok); lia|].
+          intros [s2 res2]. destruct (l1_results exp (l1_cur PS s) r) as [[rs c] fin].
+          intros (R1 & R2 & R3). split; [|split; assumption].
+          rewrite R1. cbn [rev]. rewrite <- app_assoc. reflexivity.
+        * intros (L1 & E2 & E3 & E4). subst res.
+          assert (Hc1 : l1_cur _ s1 = l1_cur _ s + n).
+          { rewrite (lo_cur _ _ _ L1), (lo_cur _ _ _ L), E4. reflexivity. }
+          eapply okor_weaken; [apply (IH s1 (RWrote n :: acc) L1); [congruence|exact Hok|lia]|].
+          intros [s2 res2]. rewrite Hc1. destruct (l1_results exp (l1_cur PS s + n) r) as [[rs c] fin].
+          intros (R1 & R2 & R3). split; [|split; assumption].
+          rewrite R1. cbn [rev]. rewrite <- app_assoc. reflexivity.
+      + eapply okor_weaken; [apply (IH s (RDone :: acc) L Hexp Hok Hcap)|].
+        intros [s2 res2]. destruct (l1_results exp (l1_cur PS s) r) as [[rs c] fin].
+        intros (R1 & R2 & R3). split; [|split; assumption].
+        rewrite R1. cbn [rev]. rewrite <- app_assoc. reflexivity.
+      + pose proof (ops_total_nonneg _ Hok).
+        eapply okor_bind; [apply (l1_finish_spec p org s W L); lia|].
+        intros [s1 res]. rewrite Hexp. cbn [fst snd okor].
+        destruct (match exp with Some ex => negb (ex =? l1_cur PS s) | None => false end).
+        * intros [E1 E2]. subst s1 res. rewrite frev_rev. cbn [rev].
+          split; [reflexivity|]. split; [symmetry; apply (lo_cur _ _ _ L)|discriminate].
+        * intros (E1 & E2 & E3 & E4 & E5 & E6). subst res. rewrite frev_rev. cbn [rev].
+          split; [reflexivity|]. rewrite (lo_cur _ _ _ L).
+          split; [exact E2|]. intros _. split; [rewrite E3; exact E2|exact E4].
+  Qed.
+
 End Oracle.
